@@ -81,9 +81,25 @@ class StructureMetaType(MetaType):
             obj = type.__call__(cls)
             object.__setattr__(obj, "_values", {})
             object.__setattr__(obj, "_sizes", {})
-            return obj
+            return cls._unshare_defaults(obj)
 
-        return super().__call__(*args, **kwargs)
+        obj = super().__call__(*args, **kwargs)
+        if not (len(args) == 1 and not kwargs and (_is_readable_type(args[0]) or _is_buffer_type(args[0]))):
+            # User (partial) initialization, the unspecified fields hold default values
+            cls._unshare_defaults(obj)
+        return obj
+
+    def _unshare_defaults(cls, obj: Structure) -> Structure:
+        """Give ``obj`` its own copy of mutable default values.
+
+        The default values are constants of the generated ``__init__`` and as such shared by all instances.
+        """
+        shared = cls.__init__.__code__.co_consts
+        for field in cls.lookup.values():
+            value = obj.__dict__.get(field._name)
+            if isinstance(value, (list, Structure)) and any(value is const for const in shared):
+                object.__setattr__(obj, field._name, field.type.__default__())
+        return obj
 
     def _update_fields(
         cls, fields: list[Field], align: bool = False, classdict: dict[str, Any] | None = None
